@@ -222,8 +222,13 @@ class XonshParserGenerator(PythonParserGenerator):
                 self.cleanup_statements.append("self.call_invalid_rules = _prev_call_invalid")
 
             # special case to reduce generated code size; a rule with clean-up statements needs the
-            # long form, whose returns go through add_return (and whose statement is popped below)
-            if not self.cleanup_statements and (simple := self.callmakervisitor.rhs_helper(node.rhs)):
+            # long form, whose returns go through add_return (and whose statement is popped below),
+            # and so does one with an invalid_ alternative, which the long form gates on call_invalid_rules
+            if (
+                not self.cleanup_statements
+                and not self.invalidvisitor.visit(node.rhs)
+                and (simple := self.callmakervisitor.rhs_helper(node.rhs))
+            ):
                 _, call = simple
                 self.print(f"return {call}")
                 return
